@@ -848,8 +848,21 @@ impl MessageReceiver {
         }
       }
 
-      ReaderSubmessage::NackFrag(_, _) => {
-        // TODO: Implement NackFrag handling
+      ReaderSubmessage::NackFrag(nackfrag, _) => {
+        // Pass on to the Writer, just like AckNack. A Reader that has received
+        // only some fragments of a sample requests the rest by NackFrag and
+        // leaves the sample out of its AckNack, so dropping these would leave
+        // the sample missing forever.
+        match self
+          .acknack_sender
+          .try_send((self.source_guid_prefix, AckSubmessage::NackFrag(nackfrag)))
+        {
+          Ok(_) => (),
+          Err(TrySendError::Full(_)) => {
+            info!("AckNack pipe full. Looks like I am very busy. Discarding submessage.");
+          }
+          Err(e) => warn!("AckNack pipe fail: {:?}", e),
+        }
       }
     }
   }
